@@ -485,6 +485,9 @@ func specDisplay(maxLen int) seqmc.Spec {
 		}
 		for i := range alpha {
 			seqs = append(seqs, []int{plain, i}, []int{i, syncI}, []int{plain, i, syncI}, []int{syncI, i})
+			// the same response twice (a second poll of an unchanged leaf, a target
+			// repeating itself): same path, same timestamp, same kind of value
+			seqs = append(seqs, []int{i, i}, []int{i, i, syncI})
 		}
 	}
 	displays := []string{"group", "single", "proto", "shortproto"}
